@@ -49,11 +49,11 @@ def snap(kind, v):
 class Slot(object):
     __slots__ = ("id", "kind", "value", "snap", "lineage", "route", "tainted", "normalized", "src_data", "made_by_lib", "uses", "decoded", "meta")
 
-    def __init__(self, id, kind, value, lineage, route):
+    def __init__(self, id, kind, value, lineage, route, snapshot=None):
         self.id = id
         self.kind = kind
         self.value = value
-        self.snap = snap(kind, value)
+        self.snap = snapshot if snapshot is not None else snap(kind, value)
         self.lineage = lineage
         self.route = route
         self.tainted = False
@@ -213,8 +213,10 @@ class World(object):
             out.append(s)
         return out
 
-    def add_slot(self, op, kind, value, lineage=None, route=None):
-        s = Slot(op["id"], kind, value, lineage, route or [])
+    def add_slot(self, op, kind, value, lineage=None, route=None, snapshot=None, parent=None):
+        s = Slot(op["id"], kind, value, lineage, route or [], snapshot)
+        if parent is not None:
+            s.meta["w"] = parent.meta.get("w", 0)
         self.slots[s.id] = s
         return s
 
@@ -222,8 +224,8 @@ class World(object):
     def check_unchanged(self, slot_ids, op_name, mode=None):
         for i in slot_ids:
             s = self.slots.get(i)
-            if s is None:
-                continue
+            if s is None or s.kind in ("code", "text"):
+                continue  # CPython code objects and str are immutable: nothing to re-read
             now = snap(s.kind, s.value)
             if now != s.snap:
                 loc = fp.diff_path(s.snap, now) or "?"
@@ -272,7 +274,9 @@ class World(object):
             self.count("compile_fail")
             return None
         s = self.add_slot(op, "code", code, lineage=op["id"], route=["compile"])
-        s.meta["n_code_objects"] = len(workload.all_code_objects(code))
+        cos = workload.all_code_objects(code)
+        s.meta["n_code_objects"] = len(cos)
+        s.meta["w"] = sum(len(c.co_code) for c in cos) // 2
         self.event("compile", op["id"], fp.digest(s.snap))
         return s
 
@@ -281,6 +285,7 @@ class World(object):
         cos = workload.all_code_objects(parent.value)
         idx = op["index"] % len(cos)
         s = self.add_slot(op, "code", cos[idx], lineage=op["id"], route=parent.route + ["nested"])
+        s.meta["w"] = sum(len(c.co_code) for c in workload.all_code_objects(cos[idx])) // 2
         self.event("nested", op["id"], idx, fp.digest(s.snap))
         return s
 
@@ -302,7 +307,7 @@ class World(object):
         if (c.co_flags & 0x3) == 0x3 and not consts and extra and isinstance(extra[0], str):
             extra = [None] + extra  # never turn a grafted str into a docstring
         new = replace_code(c, co_consts=tuple(consts + extra))
-        s = self.add_slot(op, "code", new, lineage=op["id"], route=parent.route + ["graft"])
+        s = self.add_slot(op, "code", new, lineage=op["id"], route=parent.route + ["graft"], parent=parent)
         self.count("graft")
         self.event("graft", op["id"], fp.digest(s.snap))
         return s
@@ -321,7 +326,7 @@ class World(object):
             self.event("dumps-raise", op["id"], type(e).__name__)
             self.count("dumps_raise")
             return None
-        r = self.add_slot(op, "text", text, s.lineage, s.route + ["dumps"])
+        r = self.add_slot(op, "text", text, s.lineage, s.route + ["dumps"], parent=s)
         r.normalized = s.normalized
         r.decoded = s.decoded
         self.event("dumps", op["id"], len(text))
@@ -334,7 +339,7 @@ class World(object):
         except (ValueError, RecursionError) as e:
             self.event("loads-raise", op["id"], type(e).__name__)
             return None
-        r = self.add_slot(op, "doc", doc, s.lineage, s.route + ["loads"])
+        r = self.add_slot(op, "doc", doc, s.lineage, s.route + ["loads"], parent=s)
         r.normalized = s.normalized
         r.decoded = s.decoded
         self.event("loads", op["id"], fp.digest(fp.doc_fp(doc, True)))
@@ -342,7 +347,7 @@ class World(object):
 
     def op_deepcopy(self, op, rng):
         s = self.slots[op["in"][0]]
-        r = self.add_slot(op, "doc", copy.deepcopy(s.value), s.lineage, s.route + ["deepcopy"])
+        r = self.add_slot(op, "doc", copy.deepcopy(s.value), s.lineage, s.route + ["deepcopy"], parent=s)
         r.normalized = s.normalized
         r.decoded = s.decoded
         self.event("deepcopy", op["id"])
@@ -353,7 +358,7 @@ class World(object):
         s = self.slots[op["in"][0]]
         if not isinstance(s.value, dict):
             return None
-        r = self.add_slot(op, "doc", dict(s.value), s.lineage, s.route + ["alias"])
+        r = self.add_slot(op, "doc", dict(s.value), s.lineage, s.route + ["alias"], parent=s)
         r.normalized = s.normalized
         r.decoded = s.decoded
         r.meta["alias_of"] = s.id
@@ -373,15 +378,19 @@ class World(object):
     def outcome_fp(self, name, out):
         """Exact outcome fingerprint (P2 compares these within one process)."""
         if out[0] == "ok":
-            return ("ok", fp.digest(snap(KIND_OF_RESULT[name], out[1])))
+            self._last_snap = snap(KIND_OF_RESULT[name], out[1])
+            return ("ok", fp.digest(self._last_snap))
+        self._last_snap = None
         return ("raise", out[1])
 
-    def outcome_log(self, name, out):
+    def outcome_log(self, name, out, ofp=None):
         """What goes into the run digest: canonical (frozenset listing order ignored), because
         that order depends on id-based hashes (None, Ellipsis) which no seed controls."""
         if out[0] == "ok":
             if KIND_OF_RESULT[name] == "doc":
                 return ("ok", fp.digest(fp.doc_fp(out[1], True)))
+            if ofp is not None:
+                return ofp
             return ("ok", fp.digest(snap(KIND_OF_RESULT[name], out[1])))
         return ("raise", out[1])
 
@@ -400,7 +409,8 @@ class World(object):
             if name == "from_json_data":
                 self.probes["from_json_data_on_used_doc"] = self.probes.get("from_json_data_on_used_doc", 0) + 1
         ofp = self.outcome_fp(name, outcome)
-        self.event("api", name, tuple(op["in"]), self.outcome_log(name, outcome))
+        self._result_snap = self._last_snap
+        self.event("api", name, tuple(op["in"]), self.outcome_log(name, outcome, ofp))
         self.count("api_" + name)
         res = self.after_api(op, name, arg, outcome, ofp, mode)
         return res
@@ -431,7 +441,7 @@ class World(object):
             return None
         value = outcome[1]
         kind = KIND_OF_RESULT[name]
-        r = self.add_slot(op, kind, value, arg.lineage, arg.route + [name])
+        r = self.add_slot(op, kind, value, arg.lineage, arg.route + [name], snapshot=self._result_snap, parent=arg)
         r.made_by_lib = True
         r.normalized = (name == "normalize") or (arg.normalized and name in ("to_json_data", "from_json_data"))
         r.decoded = (name == "from_code") or (arg.decoded and name in ("to_json_data", "from_json_data"))
@@ -623,7 +633,7 @@ class World(object):
         out2 = sched._outcome(thunk)
         self.api_ops += 1
         ofp = self.outcome_fp(name, out2)
-        self.event("abort-reissue", name, self.outcome_log(name, out2))
+        self.event("abort-reissue", name, self.outcome_log(name, out2, ofp))
         if self.first_result[key] != ofp:
             f = self.first_result[key]
             loc = "%s->%s" % (f[0] if f[0] == "ok" else "raise:" + f[1], ofp[0] if ofp[0] == "ok" else "raise:" + ofp[1])
@@ -674,7 +684,7 @@ class World(object):
         for spec, key, out in zip(specs, keys, results):
             ofp = self.outcome_fp(spec["op"], out)
             self.api_ops += 1
-            self.event("preempt-result", spec["op"], tuple(spec["in"]), self.outcome_log(spec["op"], out))
+            self.event("preempt-result", spec["op"], tuple(spec["in"]), self.outcome_log(spec["op"], out, ofp))
             if self.first_result[key] != ofp:
                 f = self.first_result[key]
                 loc = "%s->%s" % (f[0] if f[0] == "ok" else "raise:" + f[1], ofp[0] if ofp[0] == "ok" else "raise:" + ofp[1])
